@@ -249,7 +249,7 @@ theorem unescapeText_letters (hL : LetterClass L) :
           | none => simp [hp] at h1
           | some x =>
             obtain ⟨id, l⟩ := x
-            simp only [hp, Bool.and_eq_true, decide_eq_true_eq, Bool.not_eq_true'] at h1
+            simp only [hp, tokChar, Bool.and_eq_true, decide_eq_true_eq, Bool.not_eq_true', bne_iff_ne, ne_eq] at h1
             obtain ⟨hl, hpos, hd, rest, hr⟩ := phAt_some hp
             subst hr
             have hspan := spanLen_isDecimal_digits (rest := rest) hd
@@ -272,7 +272,7 @@ theorem unescapeText_letters (hL : LetterClass L) :
                 rw [show id ++ Inline.ETX :: rest = (id ++ [Inline.ETX]) ++ rest by simp] at this
                 exact ok_of_append_right this
               have hrec := ih rest s'' (by simp only [List.length_append, List.length_cons] at hk; omega) hokrest hu
-              rw [letters_cons_of_not L h1.2, hrec, letters_cons_of_not L hL.stx, letters_append,
+              rw [letters_cons_of_not L h1.2.1.1, hrec, letters_cons_of_not L hL.stx, letters_append,
                 letters_eq_nil_of_all L (fun c hc => hL.digit c (hd c hc)), List.nil_append,
                 letters_cons_of_not L hL.etx]
         · rw [phTok_zero] at h1; cases h1
